@@ -1,5 +1,5 @@
 from algo_prop import make
-LEAN_EXTRA = ["PyXABProofs.Generated.FormulasC05"]
+LEAN_EXTRA = ["PyXABProofs.Generated.OrderTieC05", "PyXABProofs.Generated.FormulasC05"]
 ALGOS = ["T_HOO", "HCT", "VHCT"]
 budget, explore, search, replay = make("C05", ALGOS, salt=500)
 RULE = ("the documented pull/receive loop on the real classes: algorithm x partition class (K 2..5) x dimension 1..3 x box shape x "
@@ -16,7 +16,8 @@ TRUSTED = ["harness/algo_cases.py, harness/monitors.py, harness/common.py (instr
 
 
 def regenerate(tier):
-    """translator tie for the numeric formulas: the real node methods are traced symbolically and re-proved equal to the
-    published formulas (Spec/Formulas.lean) over every field, on every run"""
-    import translate_formulas
-    return translate_formulas.generate("C05")
+    """translator ties re-proved on every run: numeric formulas traced from the real methods = published formulas over every
+    field (Spec/Formulas.lean), and selection rules run on order-only values for every order type = the model rules for all
+    values of any linear order (Spec/OrderType.lean, Props/OrderTie.lean)"""
+    import ties
+    return ties.regen("C05")
